@@ -52,14 +52,16 @@ class Rule :
                 ):
                     return
 
-            if hasattr(self, 'args') and m.body is not None:
+            if hasattr(self, 'args'):
+                body = m.body or []
                 for idx, val in self.args:
-                    if idx >= len(m.body) or m.body[idx] != val:
+                    if idx >= len(body) or body[idx] != val:
                         return
 
-            if hasattr(self, 'arg_paths') and m.body is not None:
+            if hasattr(self, 'arg_paths'):
+                body = m.body or []
                 for idx, val in self.arg_paths:
-                    if idx >= len(m.body) or not m.body[idx].startswith(val):
+                    if idx >= len(body) or not body[idx].startswith(val):
                         return
 
             # XXX arg0namespace -- Not quite sure how this one works
